@@ -195,6 +195,43 @@ def _eval_reject(prog, f, conds, mn, mx):
     return False
 
 
+_R1_CTX = None
+
+
+import threading
+_R1_LOCK = threading.Lock()
+
+
+def _r1_row(mn, ctxt=None):
+    """one row of the (min, max) grid; returns (cells, first bad cell per kind, jmpend overflow)
+    or an error string"""
+    prog, atom, rejects, kinds, cols, NREPS = ctxt or _R1_CTX
+    cells = 0
+    bad = {}
+    jm_bad = None
+    for mx in cols:
+        try:
+            if _eval_reject(prog, atom, rejects, mn, mx):
+                continue
+        except Unsupported as e:
+            return "rejection test not evaluable: %s" % e
+        for rn in kinds:
+            cells += 1
+            try:
+                C = _count_cost(prog, rn, mn, mx)
+                E, pushes = _emit_cost(prog, rn, mn, mx)
+            except Unsupported as e:
+                return "cost extraction failed at rn=%s min=%d max=%d: %s" % (rn, mn, mx, e)
+            D = C - E
+            neg = [a for a, v in D.c.items() if v < 0]
+            if neg or D.k < 0:
+                kind = "negative count" if mn < 0 else ("inverted bounds" if 0 <= mx < mn else "other")
+                bad.setdefault(kind, (rn, mn, mx, C, E))
+            if pushes > NREPS and jm_bad is None:
+                jm_bad = (rn, mn, mx, pushes)
+    return cells, bad, jm_bad
+
+
 def rule_R1(ctx):
     ctx.begin("R1", floor=3, what="(kind, min, max) cells of estimate vs emitter")
     prog = ctx.prog
@@ -226,33 +263,31 @@ def rule_R1(ctx):
     cells = 0
     bad = {}
     jm_bad = None
-    admitted_neg_min = admitted_inverted = False
-    cache = {}
-    for mn in vals:
-        if not in_range(mn, rng["mincnt"]):
-            continue
-        for mx in vals:
-            if not in_range(mx, rng["maxcnt"]):
-                continue
+    rows = [mn for mn in vals if in_range(mn, rng["mincnt"])]
+    cols = [mx for mx in vals if in_range(mx, rng["maxcnt"])]
+    global _R1_CTX
+    ctxt = (prog, atom, rejects, kinds, cols, NREPS)
+    results = []
+    if full and len(rows) > 16:
+        import multiprocessing as mp
+        with _R1_LOCK:          # the forked workers read the tuple from this module global
+            _R1_CTX = ctxt
             try:
-                if _eval_reject(prog, atom, rejects, mn, mx):
-                    continue
-            except Unsupported as e:
-                raise AnalysisBroken("rejection test not evaluable: %s" % e)
-            for rn in kinds:
-                cells += 1
-                try:
-                    C = _count_cost(prog, rn, mn, mx)
-                    E, pushes = _emit_cost(prog, rn, mn, mx)
-                except Unsupported as e:
-                    raise AnalysisBroken("cost extraction failed at rn=%s min=%d max=%d: %s" % (rn, mn, mx, e))
-                D = C - E
-                neg = [a for a, v in D.c.items() if v < 0]
-                if neg or D.k < 0:
-                    kind = "negative count" if mn < 0 else ("inverted bounds" if 0 <= mx < mn else "other")
-                    bad.setdefault(kind, (rn, mn, mx, C, E))
-                if pushes > NREPS and jm_bad is None:
-                    jm_bad = (rn, mn, mx, pushes)
+                with mp.get_context("fork").Pool(min(16, mp.cpu_count())) as pool:
+                    results = pool.map(_r1_row, rows, chunksize=4)
+            except (OSError, ValueError):
+                results = [_r1_row(mn, ctxt) for mn in rows]
+    else:
+        results = [_r1_row(mn, ctxt) for mn in rows]
+    for res in results:
+        if isinstance(res, str):
+            raise AnalysisBroken(res)
+        c_, b_, j_ = res
+        cells += c_
+        for k_, v_ in b_.items():
+            bad.setdefault(k_, v_)
+        if j_ and jm_bad is None:
+            jm_bad = j_
     if cells < 20:
         raise AnalysisBroken("only %d admitted cells" % cells)
     # boundary: if the lowest grid value is admitted the domain is unbounded below there
